@@ -372,8 +372,9 @@ func TestVerif_C05(t *testing.T) {
 			c.ConfirmViolations(h)
 		}
 	}
+	c05BigPart(c) // op records whose changed-bit count / batch length sits at and beyond 2^16
 	c.AddValidated(c.Evaluations)
-	c.Assume("values restricted to containers 0,1,2 with boundary low bits; payloads are three small sets in pilosa and official (array) format")
+	c.Assume("values restricted to containers 0,1,2 with boundary low bits; payloads are three small sets in pilosa and official (array) format; the 2^16-sized payloads of the second part run one fixed 6-step history each")
 	c.Assume("phase-B state merging represents the log by the bitmap it replays to (replay is sequential) plus the live bitmap's containers, flags, counters and lookaside")
 	if c.Finish() != 0 {
 		t.Fail()
